@@ -577,7 +577,7 @@ theorem evLeafXRE : LeafXRE EvInv where
   armTop := fun t => by unfold armTop; ev_frame_tac (pidLeafX.armTop t)
   setStopping := by unfold setStopping; ev_frame_tac pidLeafX.setStopping
   setRestarting := by unfold setRestarting; ev_frame_tac pidLeafX.setRestarting
-  clearRestarting := by unfold clearRestarting; ev_frame_tac pidLeafX.clearRestarting
+  clearRestarting := fun b => by unfold clearRestarting; ev_frame_tac (pidLeafX.clearRestarting b)
   setLoopStop := fun b => by unfold setLoopStop; ev_frame_tac (pidLeafX.setLoopStop b)
   setSocketEvent := fun b => by unfold setSocketEvent; ev_frame_tac (pidLeafX.setSocketEvent b)
   setSockReady := fun b => by unfold setSockReady; ev_frame_tac (pidLeafX.setSockReady b)
@@ -958,7 +958,7 @@ theorem annLeafR (ex : Nat → Nat → Prop) : LeafR (AnnX ex) where
   armTop := fun t s h => h.step (kept_armTop t s)
   setStopping := fun s h => h.step (by unfold setStopping; kept_frame)
   setRestarting := fun s h => h.step (by unfold setRestarting; kept_frame)
-  clearRestarting := fun s h => h.step (by unfold clearRestarting; kept_frame)
+  clearRestarting := fun b s h => h.step (by unfold clearRestarting; kept_frame)
   setLoopStop := fun b s h => h.step (by unfold setLoopStop; kept_frame)
   setSocketEvent := fun b s h => h.step (by unfold setSocketEvent; kept_frame)
   setSockReady := fun b s h => h.step (by unfold setSockReady; kept_frame)
